@@ -299,6 +299,18 @@ def corr_main(chk, d, rng, n):
         if got != real:
             chk.disagree("options main compiles with", {"argv": argv, "user": user, "pwd": pwd, "model": got, "impl": real})
         gd = dict(given)
+        # the property itself as an oracle on the REAL main (no model involved): command line > $PWD json > user json > default
+        import ffcx.options as _fo
+        for k in _KEYS:
+            src = srcs[k]
+            want = gd[k] if src == "cli" else pwd[k] if src == "pwd" else user[k] if src == "user" else _fo.FFCX_DEFAULT_OPTIONS[k][1]
+            have = seen[0][3].get(k, "<missing>")
+            if repr(have) != repr(want):
+                shadow = [s for s in ("pwd", "user") if k in {"pwd": pwd, "user": user}[s]]
+                viol_once(chk, f"cli:precedence:{src}-value-not-effective:{k}",
+                          f"ffcx.main compiles with {k}={have!r} although the highest-priority source ({src}) says {want!r} "
+                          f"(lower sources setting it: {shadow})",
+                          {"argv": argv, "user": user, "pwd": pwd, "effective": repr(have), "expected": repr(want), "source": src})
         for j, (fname, ns, outfile, _o, outdir) in enumerate(seen):
             want = DEC(d.ask(f"(sanitise {U(files[j])})"))
             exp_ns = gd["namespace"][j] if "namespace" in gd else want
